@@ -149,3 +149,15 @@ func init() {
 	// fx-core's own telemetry helper (float conversions of amounts): observability only
 	externals["github.com/functionx/fx-core/v8/telemetry.SetGaugeLabelsWithDenom"] = func(fr *frame, args []value) value { return nil }
 }
+
+func init() {
+	externals["(*github.com/evmos/ethermint/x/evm/types.MsgEthereumTxResponse).Failed"] = func(fr *frame, args []value) value {
+		p := args[0].(*value)
+		if p == nil {
+			panic(rtErr(fr.i, "invalid memory address or nil pointer dereference"))
+		}
+		t := fr.i.prog.ImportedPackage("github.com/evmos/ethermint/x/evm/types").Type("MsgEthereumTxResponse").Type()
+		v := *fr.i.structField(t, (*p).(structure), "VmError")
+		return strLen(v) > 0
+	}
+}
